@@ -338,6 +338,20 @@ def croo_long(ctx):
                     ctx.violation(sub, {"n": n, "run": tags[j][0], "extra_one_at": tags[j][1], "stored": name, "backend": backend}, {"kind": "croo_long"},
                                   f"croo on a cube of {len(w)} pixels x {n} steps ({name} storage, {backend}): the pixel whose current run has length {tags[j][0]}"
                                   f"{'' if tags[j][1] is None else ' and which has an isolated 1 ' + str(tags[j][1]) + ' steps before the latest step'} -> {int(got[j])}, expected {int(cr[j])}")
+        # ... and every pixel as a cube of its own (in the big cube a pixel that needs the whole axis can make
+        # the walk complete for all the others), plus the cube without its long-run pixels
+        for name, order in (("chronological", tuple(range(n))), ("reversed", tuple(range(n - 1, -1, -1))), ("rotated", tuple(np.roll(np.arange(n), 101)))):
+            subsets = [[j] for j in range(len(w))] + [[j for j in range(len(w)) if tags[j][0] < 64]]
+            for rows_ in subsets:
+                ws = w[rows_]
+                got = np.asarray(_mkda(ws, order=order).hdc.algo.croo().values).reshape(-1).astype(np.int64)
+                ctx.count(sub, evaluations=len(ws), states=1, transitions=1, traces_validated_against_impl=1, nontrivial=1)
+                for q in np.nonzero(got != cr[rows_])[0][:2]:
+                    j = rows_[q]
+                    ctx.violation(sub, {"n": n, "run": tags[j][0], "extra_one_at": tags[j][1], "stored": name, "cube": "alone" if len(rows_) == 1 else "short runs only"},
+                                  {"kind": "croo_long"},
+                                  f"croo on a cube of {len(rows_)} pixel(s) x {n} steps ({name} storage): the pixel whose current run has length {tags[j][0]}"
+                                  f"{'' if tags[j][1] is None else ' and which has an isolated 1 ' + str(tags[j][1]) + ' steps before the latest step'} -> {int(got[q])}, expected {int(cr[j])}")
     ctx.sample(sub, {"lengths": [257, 300, 513, 1000], "runs": "0..3, 127..129, 255..257, 300, 511..513, 999, n", "isolated_one_steps_back": [64, 128, 255, 256, 257, 384, 511, 512, 513, 768]})
 
 
